@@ -28,6 +28,9 @@ static bool domain_printable(const MVal *m, bool need_finite, bool need_utf8, bo
         case T_STRING: if (need_utf8 && !valid_utf8(view_str(m))) { why = "string is not valid UTF-8"; return false; } return true;
         case T_RAW: if (!allow_raw) { why = "raw item"; return false; } return true;
         case T_ARRAY: case T_OBJECT:
+            // a container at depth d is the (d+1)-th nested container of the text: more than CJSON_NESTING_LIMIT of them cannot be
+            // parsed back (and the strict reference reader, which recurses, stops there too), whether or not the innermost is empty
+            if (depth + 1 > CJSON_NESTING_LIMIT) { why = "more nested containers than the nesting limit"; return false; }
             for (const MVal *k : view_kids(m)) {
                 if (view_type(m) == T_OBJECT) {
                     if (k->keystate != K_KNOWN) { why = "object member without a known key"; return false; }
